@@ -620,7 +620,12 @@ func (e *Engine) verifyFunc(key string, sem chan struct{}) *FuncResult {
 			sem <- struct{}{}
 			defer func() { <-sem }()
 			var r SolveResult
-			if o.Cover {
+			if !o.Required && !o.Cover {
+				// advisory obligation: one quick attempt, never gates the check
+				f := filepath.Join(e.workdir, sanitizeFile(fmt.Sprintf("%s.%d", key, i))+".smt2")
+				_ = os.WriteFile(f, []byte(query+"(check-sat)\n"), 0o644)
+				r = runSolver(context.Background(), "z3-new", "z3-new", f, 1*time.Second, false)
+			} else if o.Cover {
 				// vacuity cover: only an `unsat` answer matters; a quick single-solver attempt suffices
 				f := filepath.Join(e.workdir, sanitizeFile(fmt.Sprintf("%s.%d", key, i))+".smt2")
 				_ = os.WriteFile(f, []byte(query+"(check-sat)\n"), 0o644)
